@@ -276,3 +276,41 @@ def obligations(tier: str):
             obls.append({"id": "q%02d.d%02d" % (qi, di), "func": "h_valid", "params": {"query": q, "doc": d}, "timeout": t})
     obls.append({"id": "reach", "func": "h_reach", "timeout": 60, "expect": "refuted"})
     return obls
+
+
+def r_exhaustive(query: str, doc: str):
+    """Concrete regression witness: enumerate every tape on the real code; the produced set must equal the permitted set."""
+    want = _perm(query, doc)
+    c = ENV.compile(query)
+    produced = set()
+    stack = [[]]
+    runs = 0
+    while stack:
+        prefix = stack.pop()
+        arities: List[int] = []
+
+        class T(tape.ChoiceTape):
+            def draw(self, k):
+                if k <= 1:
+                    return 0
+                i = self.n
+                self.n += 1
+                arities.append(k)
+                return prefix[i] if i < len(prefix) else 0
+
+        tape.install(T())
+        key = _loc_key(c.find(json.loads(doc)))
+        runs += 1
+        if runs > 200000:
+            return "choice tree too large"
+        if len(arities) > len(prefix):
+            i = len(prefix)
+            for v in range(arities[i]):
+                stack.append(prefix + [v])
+            continue
+        produced.add(key)
+    if produced - want:
+        return "%s on %s produced an ordering RFC 9535 does not permit: %r" % (query, doc, sorted(produced - want)[0])
+    if want - produced:
+        return "%s on %s: %d of %d permitted orderings are never produced, e.g. %r" % (query, doc, len(want - produced), len(want), sorted(want - produced)[0])
+    return True
